@@ -63,6 +63,13 @@ Section Steps.
     eapply run_orelse_hit; [apply run_eat_hit; [reflexivity|discriminate]|].
     rewrite Hl. eapply run_bind; [apply run_mk_span0|]. exact H.
   Qed.
+  Lemma pl_parsed_suffix_gen f e stk t R t1 (a : expr) t' :
+    run (suffix_loop pexpr (S lf) (S lf) e) t R t1 -> run (PL f (StParsed R) stk) t1 a t' ->
+    run (PL (S f) (StParsed e) (SiSuffix :: stk)) t a t'.
+  Proof.
+    intros H1 H2. cbn [pe_loop].
+    eapply run_bind; [unfold parse_suffix_expr; apply run_call; exact H1|exact H2].
+  Qed.
 End Steps.
 
 (* ---------------------------------------------------------------- the covered constructors *)
@@ -73,6 +80,7 @@ Fixpoint core_expr (e : expr) : bool :=
   | EUnary _ _ x => core_expr x
   | EBinary _ l _ r => core_expr l && core_expr r
   | EInSuper _ x _ => core_expr x
+  | EField _ x _ => core_expr x
   | EError _ x | EImport _ x | EImportStr _ x | EImportBin _ x => core_expr x
   | EIf _ c t o => core_expr c && core_expr t && match o with Some x => core_expr x | None => true end
   | EAssert _ (MkAssert _ c m) body =>
@@ -86,6 +94,7 @@ Proof.
   induction e; cbn [core_expr]; intros H; try discriminate;
     try (eexists; eexists; split; [reflexivity|reflexivity]).
   - destruct b; eexists; eexists; split; reflexivity.
+  - destruct (IHe H) as (c & r & E & Hc). cbn [print_expr]. rewrite E. eexists; eexists; split; [reflexivity|exact Hc].
   - apply andb_true_iff in H as [H1 H2]. destruct (IHe1 H1) as (c & r & E & Hc).
     cbn [print_expr]. rewrite E. eexists; eexists; split; [reflexivity|exact Hc].
   - destruct op; eexists; eexists; split; reflexivity.
@@ -187,6 +196,59 @@ Proof. unfold steps_fin. destruct (10 - k)%nat eqn:E; lia. Qed.
 
 Ltac len_tac := cbn [print_expr print_assert]; repeat (progress (repeat rewrite app_length; cbn [List.length])); lia.
 
+(* suffix chains: from the unary level into the suffix loop of parse_suffix_expr *)
+Definition Sform (e : expr) (c m : nat) : Prop :=
+  forall pexpr lf f stk rest R t' (X : expr) tf,
+    pexpr_ok pexpr (List.length (print_expr e)) -> (List.length (print_expr e) <= lf)%nat -> rest <> [] ->
+    run (suffix_loop pexpr (S lf) (S lf - m) (strip_spans e)) rest R t' ->
+    run (pe_loop T pexpr (S lf) f (StParsed R) stk) t' X tf ->
+    run (pe_loop T pexpr (S lf) (c + f) StUnary stk) (print_expr e ++ rest) X tf.
+
+Lemma sform n
+  (IH : forall y, (esize y < n)%nat -> core_expr y = true -> forall k last, (k <= 10)%nat ->
+        wpx k last y = true -> exists c, (c <= 40 * List.length (print_expr y))%nat /\ Bform k last y c) :
+  forall e, (esize e <= n)%nat -> core_expr e = true -> wpx lv_postfix false e = true ->
+  exists c m, (c + 30 <= 40 * List.length (print_expr e))%nat /\ (m <= List.length (print_expr e))%nat /\ Sform e c m.
+Proof.
+  induction e; intros Hsz Hcore Hwp; cbn [core_expr] in Hcore; try discriminate;
+    try (cbn [wpx andb] in Hwp; discriminate);
+    try (cbn [wpx] in Hwp; destruct e3; cbn in Hwp; discriminate);
+    try (lazymatch goal with |- exists c m, _ /\ _ /\ Sform ?E c m =>
+         exists 3%nat, 0%nat; split; [cbn [print_expr List.length]; lia|]; split; [lia|];
+         intros pexpr lf f stk rest R t' X tf _ _ Hr H1 H2; cbn [print_expr app Nat.add];
+         apply pl_unary_miss; [try destruct b; reflexivity|];
+         eapply (pl_primary_atom pexpr lf _ E); [reflexivity|exact Hr|];
+         rewrite Nat.sub_0_r in H1; eapply pl_parsed_suffix_gen; [exact H1|exact H2] end).
+  - (* EParen *)
+    cbn [wpx] in Hwp. cbn [esize] in Hsz.
+    destruct (IH e ltac:(lia) Hcore 0%nat true ltac:(lia) Hwp) as (cx & Hbx & Hx).
+    exists (S (S (cx + 3))), 0%nat. split; [len_tac|]. split; [lia|].
+    intros pexpr lf f stk rest R t' X tf Hp Hlf Hr H1 H2.
+    cbn [print_expr strip_spans app]. rewrite <- app_assoc. cbn [app Nat.add].
+    apply pl_unary_miss; [reflexivity|].
+    apply pl_primary_paren; [auto with rt|].
+    change (init_state T) with (enter 0).
+    fuel_as (cx + (3 + f))%nat.
+    apply Hx; [eapply pexpr_ok_mono; [exact Hp|len_tac]| revert Hlf; len_tac |reflexivity|intros _; reflexivity|].
+    change (exit_ 0 (strip_spans e)) with (StBinaryRhs (kind 0) (strip_spans e)). cbn [Nat.add].
+    apply pl_rhs_none; [reflexivity|].
+    apply pl_parsed_paren; [exact Hr|].
+    rewrite Nat.sub_0_r in H1. eapply pl_parsed_suffix_gen; [exact H1|exact H2].
+  - (* EField *)
+    cbn [wpx] in Hwp. cbn [esize] in Hsz.
+    destruct (IHe ltac:(lia) Hcore Hwp) as (c & m & Hbc & Hbm & HS).
+    exists c, (S m). split; [len_tac|]. split; [len_tac|].
+    intros pexpr lf f stk rest R t' X tf Hp Hlf Hr H1 H2.
+    cbn [print_expr strip_spans]. rewrite <- app_assoc. cbn [app].
+    assert (Hl : (List.length (print_expr e) + 2 <= lf)%nat) by (revert Hlf; len_tac).
+    eapply HS; [eapply pexpr_ok_mono; [exact Hp|len_tac]|lia|discriminate| |exact H2].
+    replace (S lf - m)%nat with (S (S lf - S m)) by lia. cbn [suffix_loop].
+    eapply run_orelse_hit; [apply run_eat_hit; [reflexivity|discriminate]|].
+    eapply run_bind; [unfold id_tok, tk; apply run_expect_ident_hit; exact Hr|].
+    rewrite strip_span0. eapply run_bind; [apply run_mk_span0|]. exact H1.
+  - (* EBinary *) cbn [wpx] in Hwp. destruct op; cbn in Hwp; discriminate.
+Qed.
+
 Theorem rt_main : forall n e, (esize e < n)%nat -> core_expr e = true ->
   forall k last, (k <= 10)%nat -> wpx k last e = true ->
   exists c, (c <= 40 * List.length (print_expr e))%nat /\ Bform k last e c.
@@ -213,6 +275,14 @@ Proof.
     apply pl_rhs_none; [reflexivity|].
     apply pl_parsed_paren; [discriminate|].
     apply pl_parsed_suffix_none; [exact Hn|exact H].
+  - (* EField *)
+    assert (Hw11 : wpx lv_postfix false (EField sp e name) = true) by (cbn [wpx] in Hwp |- *; exact Hwp).
+    destruct (sform n IH (EField sp e name) ltac:(lia) Hcore Hw11) as (c & m & Hbc & Hbm & HS).
+    exists ((10 - k) + c + steps_fin k)%nat. split; [lia|].
+    apply wrap; [exact Hk|].
+    intros pexpr lf f stk fo r x tf Hp Hlf Hn _ _ H.
+    eapply HS; [exact Hp|exact Hlf|discriminate| |exact H].
+    replace (S lf - m)%nat with (S (lf - m)) by lia. apply suffix_none; exact Hn.
   - (* EIf *)
     cbn [esize] in Hsz.
     assert (Hlast : last = true) by (cbn [wpx] in Hwp; destruct e3, last; cbn in Hwp; congruence).
